@@ -24,3 +24,16 @@ Lemma ex_straight :
 Proof.
   split; [reflexivity|]. eexists _, _. split; [vm_compute; reflexivity|]. vm_compute. repeat split; congruence.
 Qed.
+
+(** with memory instructions: a store, a sign-extending packed load, memory.grow *)
+Definition ex_bs_mem : list binstr :=
+  [BConst T_i32 16; BLocalGet 0; BStore T_i32 None 4; BConst T_i32 16; BLoad T_i32 (Some (P8, SX_S)) 4;
+   BConst T_i32 1; BMemoryGrow; BBinop T_i32 Add; BLocalTee 1; BUnop T_i32 Extend8S].
+Lemma ex_straight_mem :
+  forallb straight_ok ex_bs_mem = true
+  /\ exists v' sf, compile_ops ex_cx (map OBasic ex_bs_mem) (init_vstate (Some T_i32)) (init_cstate 2) = Some (v', sf)
+       /\ length (c_stack sf) = 1%nat /\ map fst (c_consts sf) = [16; 1]
+       /\ c_next sf < 2147483648 /\ Z.of_nat (length (c_consts sf)) < 2147483648.
+Proof.
+  split; [reflexivity|]. eexists _, _. split; [vm_compute; reflexivity|]. vm_compute. repeat split; congruence.
+Qed.
